@@ -138,6 +138,14 @@ def rendered_pool(ck):
         out = ck.wd("rendered_%s.ndjson" % mod)
         vh(["tlc2pool", "--in", m["out"], "--out", out, "--origin", "rendered:" + mod, "--dedupe", "1"])
         files.append(out)
+    # plus freshly simulated long structure tapes (seeded): shapes the short exhaustive tapes cannot reach
+    sim = ck.wd("rendered_sim.out")
+    r = tlc("Gen_Render", cfg="Gen_Render_sim2", workers=8, out_path=sim, name=ck.prop + "_rsim", simulate=600 if ck.tier == "quick" else 20000, depth=76, timeout=7200)
+    ck.add_tlc(r)
+    out = ck.wd("rendered_sim.ndjson")
+    vh(["tlc2pool", "--in", sim, "--out", out, "--origin", "rendered:sim", "--dedupe", "1"])
+    os.remove(sim)
+    files.append(out)
     return files
 
 
